@@ -46,8 +46,8 @@ chk("C04", "exploration", "history replay against a reference claim model with a
     "Integers beyond int64 and escaped NULs are unjudged (jansson refuses them).", "DESIGN.md 3/C04")
 chk("C06", "exploration", "sanitizers (gcc ASan+UBSan+LSan; clang libFuzzer+ASan+UBSan) over generated and coverage-guided tokens + conservative well-formedness classifier",
     "3e4 (quick) / 5e5 (thorough) grammar-derived near-valid tokens from 20 generator classes plus 4e5 / 2e7 coverage-guided "
-    "libFuzzer executions (dictionary of alg names and JSON punctuation, inputs to 64 KiB) are each verified by 10 checkers "
-    "(both providers x no key/HS256/RS256/ES256/EdDSA, all with a reading callback) under sanitizers; every accepted token and "
+    "libFuzzer executions (dictionary of alg names and JSON punctuation, inputs to 64 KiB) are each verified by 22 checkers "
+    "(both providers x no key/HS256/RS256/PS256/ES256/ES384/ES512/ES256K/Ed25519/Ed448 and ES256 on a curve GnuTLS cannot import, all with a reading callback) under sanitizers; every accepted token and "
     "the whole fuzz corpus are then judged offline by a conservative classifier (accepted => not definitely malformed). Leaks "
     "are checked by LeakSanitizer at process exit and per input by libFuzzer.",
     "Trusted: sanitizers see libjwt code only (jansson/OpenSSL/GnuTLS uninstrumented); red-zone tools miss intra-object "
